@@ -1,4 +1,253 @@
-import NumqiModel.Manifold
+/-
+C01 — every trivialization map lands on its manifold.
+
+Property theorems only (helpers: `NumqiProofs/Manifold{Lemmas,Matrix,Maps,Psd,Ensemble,Sym}.lean`).  All statements are about the
+constants of `NumqiModel/Manifold.lean` that `Driver/C01.lean` executes, instantiated at `α = ℝ`, `K = ℂ`
+(`Transc ℝ` = the real `sqrt exp log sin cos`, `CxOps ℝ ℂ` = the complex numbers).  `toM m n A` is the `m × n` data matrix `A`
+as a Mathlib matrix.  Every theorem is for **all** dimensions / ranks / orders and all parameter vectors `θ : ℕ → ℝ`,
+except for the guards written as hypotheses (`θ ≠ 0` for the quotient maps, full column rank for polar/qr).
+External routines (`expm`, `inv`, `cholesky`, inverse square root, `qr`) are parameters; their contracts are hypotheses.
+
+Kept as `def …Statement : Prop` + `…_partial` (not proved in full): `soExp_complex_det_one` (needs `det ∘ exp = exp ∘ tr`,
+absent from Mathlib; the proved fragment is `|det| = 1`).
+-/
+import NumqiProofs.ManifoldEnsemble
+import NumqiProofs.ManifoldSym
+import NumqiProofs.ManifoldEuler
+
 namespace Numqi.C01
-theorem placeholder : True := trivial
+open Numqi Numqi.Manifold Matrix Finset
+open Numqi.Gellmann (Scalars complexScalars complexScalars_valid)
+open scoped ComplexOrder
+local notation "mexp" => NormedSpace.exp
+
+variable {dim rank : Nat}
+
+/-! ### scalars and vectors -/
+
+/-- `to_positive_real_softplus(θ) > 0` -/
+theorem softplus_pos (x : ℝ) : 0 < softplus x := softplus_pos' x
+
+/-- `to_positive_real_exp(θ) > 0` -/
+theorem expMap_pos (x : ℝ) : 0 < expMap x := Real.exp_pos x
+
+/-- `to_open_interval(θ, l, u) ∈ (l, u)` for `l < u` -/
+theorem openInterval_mem (θ l u : ℝ) (h : l < u) : l < openInterval θ l u ∧ openInterval θ l u < u :=
+  openInterval_mem' θ l u h
+
+/-- `to_ball` (real): `‖x‖² < 1` for every θ -/
+theorem ball_real_norm_lt_one (n : Nat) (θ : Nat → ℝ) : ∑ i ∈ range n, ballVec n θ i * ballVec n θ i < 1 := by
+  rw [← normSq_eq]; exact ball_normSq n θ
+
+/-- `to_ball` (complex, `2h` parameters paired as `x[:h] + i x[h:]`): `Σ|z_j|² < 1` -/
+theorem ball_complex_norm_lt_one (h : Nat) (θ : Nat → ℝ) :
+    ∑ j ∈ range h, Complex.normSq (pairCx (K := ℂ) h (ballVec (h + h) θ) j) < 1 := by
+  rw [pairCx_normSq]; exact ball_normSq (h + h) θ
+
+/-- `to_sphere_quotient` (real): unit norm for θ ≠ 0 -/
+theorem sphereQuotient_real_norm (n : Nat) (θ : Nat → ℝ) (hθ : normSq n θ ≠ 0) :
+    ∑ i ∈ range n, sphereQuotientVec n θ i * sphereQuotientVec n θ i = 1 := by
+  rw [← normSq_eq]; exact sphereQuotient_normSq n θ hθ
+
+/-- `to_sphere_quotient` (complex) -/
+theorem sphereQuotient_complex_norm (h : Nat) (θ : Nat → ℝ) (hθ : normSq (h + h) θ ≠ 0) :
+    ∑ j ∈ range h, Complex.normSq (pairCx (K := ℂ) h (sphereQuotientVec (h + h) θ) j) = 1 := by
+  rw [pairCx_normSq]; exact sphereQuotient_normSq (h + h) θ hθ
+
+/-- `to_sphere_coordinate` (real, `n` angles ↦ `n+1` coordinates): unit norm for **every** θ -/
+theorem sphereCoordinate_real_norm (n : Nat) (θ : Nat → ℝ) :
+    ∑ i ∈ range (n + 1), sphereCoordVec n θ i * sphereCoordVec n θ i = 1 := by
+  rw [← normSq_eq]; exact sphereCoord_normSq n θ
+
+/-- `to_sphere_coordinate` (complex, `2h-1` angles ↦ `h` complex coordinates) -/
+theorem sphereCoordinate_complex_norm (h : Nat) (hh : 1 ≤ h) (θ : Nat → ℝ) :
+    ∑ j ∈ range h, Complex.normSq (pairCx (K := ℂ) h (sphereCoordVec (h + h - 1) θ) j) = 1 := by
+  rw [pairCx_normSq]
+  have : h + h = (h + h - 1) + 1 := by omega
+  rw [this]; exact sphereCoord_normSq _ θ
+
+/-- `to_discrete_probability_softmax`: positive entries … -/
+theorem softmax_pos (n : Nat) (θ : Nat → ℝ) (hn : 0 < n) (i : Nat) : 0 < softmaxVec n θ i := softmax_pos' n θ hn i
+/-- … summing to one -/
+theorem softmax_sum (n : Nat) (θ : Nat → ℝ) (hn : 0 < n) : ∑ i ∈ range n, softmaxVec n θ i = 1 := softmax_sum' n θ hn
+
+/-- `to_discrete_probability_sphere`: non-negative entries … -/
+theorem probSphere_nonneg (n : Nat) (θ : Nat → ℝ) (i : Nat) : 0 ≤ probSphereVec n θ i := probSphere_nonneg' n θ i
+/-- … summing to one (θ ≠ 0) -/
+theorem probSphere_sum (n : Nat) (θ : Nat → ℝ) (hθ : normSq n θ ≠ 0) : ∑ i ∈ range n, probSphereVec n θ i = 1 :=
+  probSphere_sum' n θ hθ
+
+/-! ### trace-one positive semidefinite matrices -/
+
+theorem psdCholesky_hermitian (isReal : Bool) (θ : Nat → ℝ) :
+    (toM dim dim (psdCholesky (K := ℂ) dim rank isReal θ)).IsHermitian := psdCholesky_hermitian' isReal θ
+theorem psdCholesky_posSemidef (isReal : Bool) (θ : Nat → ℝ) :
+    (toM dim dim (psdCholesky (K := ℂ) dim rank isReal θ)).PosSemidef := psdCholesky_posSemidef' isReal θ
+/-- trace one for every θ (the softplus diagonal makes the normaliser non-zero) -/
+theorem psdCholesky_trace_one (isReal : Bool) (θ : Nat → ℝ) (hr : 1 ≤ rank) (h : rank ≤ dim) :
+    trace (toM dim dim (psdCholesky (K := ℂ) dim rank isReal θ)) = 1 := psdCholesky_trace' isReal θ hr h
+theorem psdCholesky_rank_le (isReal : Bool) (θ : Nat → ℝ) :
+    Matrix.rank (toM dim dim (psdCholesky (K := ℂ) dim rank isReal θ)) ≤ rank := psdCholesky_rank_le' isReal θ
+
+/-- `to_trace1_psd_ensemble`: Hermitian positive semidefinite for every θ -/
+theorem psdEnsemble_posSemidef (isReal : Bool) (θ : Nat → ℝ) (hr : 0 < rank) :
+    (toM dim dim (psdEnsemble (K := ℂ) dim rank isReal θ)).PosSemidef := psdEnsemble_posSemidef' isReal θ hr
+/-- trace one when every state block of θ is non-zero -/
+theorem psdEnsemble_trace_one (isReal : Bool) (θ : Nat → ℝ) (hr : 0 < rank)
+    (hθ : ∀ k : Fin rank, normSq (if isReal then dim else 2 * dim)
+      (fun q => θ (rank + k.val * (if isReal then dim else 2 * dim) + q)) ≠ 0) :
+    trace (toM dim dim (psdEnsemble (K := ℂ) dim rank isReal θ)) = 1 := psdEnsemble_trace' isReal θ hr hθ
+theorem psdEnsemble_rank_le (isReal : Bool) (θ : Nat → ℝ) :
+    Matrix.rank (toM dim dim (psdEnsemble (K := ℂ) dim rank isReal θ)) ≤ rank := psdEnsemble_rank_le' isReal θ
+
+/-! ### symmetric / Hermitian matrices -/
+
+/-- all four placements (real/complex × full/traceless) give a Hermitian matrix -/
+theorem symmetric_hermitian (S : Scalars ℂ) (hS : S.Valid dim) (hd : 1 ≤ dim) (isReal isTrace0 : Bool) (θ : Nat → ℝ) :
+    (toM dim dim (symmetricRaw S dim isReal isTrace0 θ))ᴴ = toM dim dim (symmetricRaw S dim isReal isTrace0 θ) :=
+  symmetricRaw_hermitian' S hS hd isReal isTrace0 θ
+/-- `is_trace0` ⇒ trace zero -/
+theorem symmetric_trace_zero (S : Scalars ℂ) (hd : 1 ≤ dim) (isReal : Bool) (θ : Nat → ℝ) :
+    trace (toM dim dim (symmetricRaw S dim isReal true θ)) = 0 := symmetricRaw_trace' S hd isReal θ
+/-- `is_norm1` ⇒ Frobenius norm one (raw matrix non-zero) -/
+theorem symmetric_norm_one (S : Scalars ℂ) (isReal isTrace0 : Bool) (θ : Nat → ℝ)
+    (hne : frobSq dim dim (symmetricRaw S dim isReal isTrace0 θ) ≠ 0) :
+    frobSq dim dim (symmetricMatrix S dim isReal isTrace0 true θ) = 1 := symmetricMatrix_norm1' S isReal isTrace0 θ hne
+
+/-! ### special orthogonal / unitary -/
+
+/-- the generator (θ placed in the antisymmetric block / `i`·Hermitian traceless block) is skew-Hermitian -/
+theorem soGenerator_skewHermitian (S : Scalars ℂ) (hS : S.Valid dim) (hd : 1 ≤ dim) (isReal : Bool) (θ : Nat → ℝ) :
+    (toM dim dim (soGenerator S dim isReal θ))ᴴ = -toM dim dim (soGenerator S dim isReal θ) :=
+  soGenerator_skew S hS hd isReal θ
+/-- real branch: real entries, antisymmetric -/
+theorem soGenerator_real (S : Scalars ℂ) (hS : S.Valid dim) (hd : 1 ≤ dim) (θ : Nat → ℝ) :
+    (toM dim dim (soGenerator S dim true θ))ᵀ = -toM dim dim (soGenerator S dim true θ)
+      ∧ ∀ r c, (toM dim dim (soGenerator S dim true θ) r c).im = 0 :=
+  ⟨soGenerator_real_transpose S hS hd θ, soGenerator_real_entries S θ⟩
+/-- complex branch: traceless -/
+theorem soGenerator_traceless (S : Scalars ℂ) (hd : 1 ≤ dim) (θ : Nat → ℝ) :
+    trace (toM dim dim (soGenerator S dim false θ)) = 0 := soGenerator_complex_trace S hd θ
+
+/-- `to_special_orthogonal_exp` is unitary for every θ (contract: `expm` is the matrix exponential) -/
+theorem soExp_unitary (expm : NMat ℂ → NMat ℂ) (hexp : ∀ A, toM dim dim (expm A) = mexp (toM dim dim A))
+    (S : Scalars ℂ) (hS : S.Valid dim) (hd : 1 ≤ dim) (isReal : Bool) (θ : Nat → ℝ) :
+    (toM dim dim (soExp expm S dim isReal θ))ᴴ * toM dim dim (soExp expm S dim isReal θ) = 1 :=
+  soExp_unitary' expm hexp S hS hd isReal θ
+/-- real branch: determinant one -/
+theorem soExp_real_det_one (expm : NMat ℂ → NMat ℂ) (hexp : ∀ A, toM dim dim (expm A) = mexp (toM dim dim A))
+    (S : Scalars ℂ) (hS : S.Valid dim) (hd : 1 ≤ dim) (θ : Nat → ℝ) :
+    (toM dim dim (soExp expm S dim true θ)).det = 1 := soExp_real_det' expm hexp S hS hd θ
+
+/-- complex branch: determinant one — **full statement, not proved** (needs `det (exp A) = exp (tr A)`, absent from Mathlib) -/
+def soExp_complex_det_one.Statement : Prop :=
+  ∀ (dim : Nat) (expm : NMat ℂ → NMat ℂ), (∀ A, toM dim dim (expm A) = mexp (toM dim dim A)) →
+    ∀ (S : Scalars ℂ), S.Valid dim → 1 ≤ dim → ∀ θ : Nat → ℝ, (toM dim dim (soExp expm S dim false θ)).det = 1
+
+/-- proved fragment: the determinant has modulus one -/
+theorem soExp_complex_det_one_partial (expm : NMat ℂ → NMat ℂ) (hexp : ∀ A, toM dim dim (expm A) = mexp (toM dim dim A))
+    (S : Scalars ℂ) (hS : S.Valid dim) (hd : 1 ≤ dim) (θ : Nat → ℝ) :
+    Complex.normSq (toM dim dim (soExp expm S dim false θ)).det = 1 := by
+  have := congrArg det (soExp_unitary' expm hexp S hS hd false θ)
+  rw [det_mul, det_conjTranspose, det_one, Complex.star_def, mul_comm, Complex.mul_conj] at this
+  exact_mod_cast this
+
+/-- `to_special_orthogonal_cayley` is unitary for every θ and every order (contract: `inv` is a left inverse on invertible
+input; `1 + A` is proved invertible) -/
+theorem soCayley_unitary (inv : NMat ℂ → NMat ℂ)
+    (hinv : ∀ P, IsUnit (toM dim dim P).det → toM dim dim (inv P) * toM dim dim P = 1)
+    (S : Scalars ℂ) (hS : S.Valid dim) (hd : 1 ≤ dim) (order : Nat) (isReal : Bool) (θ : Nat → ℝ) :
+    (toM dim dim (soCayley inv S dim order isReal θ))ᴴ * toM dim dim (soCayley inv S dim order isReal θ) = 1 :=
+  soCayley_unitary' inv hinv S hS hd order isReal θ
+/-- real branch: determinant one -/
+theorem soCayley_real_det_one (inv : NMat ℂ → NMat ℂ)
+    (hinv : ∀ P, IsUnit (toM dim dim P).det → toM dim dim (inv P) * toM dim dim P = 1)
+    (S : Scalars ℂ) (hS : S.Valid dim) (hd : 1 ≤ dim) (order : Nat) (θ : Nat → ℝ) :
+    (toM dim dim (soCayley inv S dim order true θ)).det = 1 := soCayley_real_det' inv hinv S hS hd order θ
+
+/-! ### Stiefel -/
+
+/-- `to_stiefel_choleskyL`: orthonormal columns for **every** θ (the pre-factor is proved to have full column rank);
+contracts: `chol G · (chol G)ᴴ = G` on positive definite `G`, `inv` a left inverse on invertible input -/
+theorem stiefelCholL_orthonormal (chol inv : NMat ℂ → NMat ℂ)
+    (hchol : ∀ G, (toM rank rank G).PosDef → toM rank rank (chol G) * (toM rank rank (chol G))ᴴ = toM rank rank G)
+    (hinv : ∀ P, IsUnit (toM rank rank P).det → toM rank rank (inv P) * toM rank rank P = 1)
+    (isReal : Bool) (θ : Nat → ℝ) (h : rank ≤ dim) :
+    (toM dim rank (stiefelCholL chol inv dim rank isReal θ))ᴴ * toM dim rank (stiefelCholL chol inv dim rank isReal θ) = 1 :=
+  stiefelCholL_orthonormal' chol inv hchol hinv isReal θ h
+
+/-- `to_stiefel_polar` (`rank ≥ 2`): orthonormal columns when the parameter matrix has full column rank;
+contract: `S = invSqrt G` is Hermitian with `S G S = 1` on positive definite `G` -/
+theorem stiefelPolar_orthonormal (invSqrt : NMat ℂ → NMat ℂ)
+    (hsq : ∀ G, (toM rank rank G).PosDef →
+      (toM rank rank (invSqrt G))ᴴ = toM rank rank (invSqrt G) ∧
+      toM rank rank (invSqrt G) * toM rank rank G * toM rank rank (invSqrt G) = 1)
+    (isReal : Bool) (θ : Nat → ℝ) (hr : rank ≠ 1)
+    (hfull : Function.Injective (toM dim rank (stiefelMat (K := ℂ) dim rank isReal θ)).mulVec) :
+    (toM dim rank (stiefelPolar invSqrt dim rank isReal θ))ᴴ * toM dim rank (stiefelPolar invSqrt dim rank isReal θ) = 1 :=
+  stiefelPolar_orthonormal' invSqrt hsq isReal θ hr hfull
+/-- `rank = 1` branch: unit vector (θ ≠ 0) -/
+theorem stiefelPolar_rank_one (invSqrt : NMat ℂ → NMat ℂ) (isReal : Bool) (θ : Nat → ℝ)
+    (hne : frobSq dim 1 (stiefelMat (K := ℂ) dim 1 isReal θ) ≠ 0) :
+    frobSq dim 1 (stiefelPolar invSqrt dim 1 isReal θ) = 1 := stiefelPolar_rank1' invSqrt isReal θ hne
+
+/-- `to_stiefel_qr`: the property is the contract of `qr` on the reshaped parameter matrix -/
+theorem stiefelQR_orthonormal (qrQ : NMat ℂ → NMat ℂ)
+    (hqr : ∀ M, Function.Injective (toM dim rank M).mulVec → (toM dim rank (qrQ M))ᴴ * toM dim rank (qrQ M) = 1)
+    (isReal : Bool) (θ : Nat → ℝ)
+    (hfull : Function.Injective (toM dim rank (stiefelMat (K := ℂ) dim rank isReal θ)).mulVec) :
+    (toM dim rank (stiefelQR qrQ dim rank isReal θ))ᴴ * toM dim rank (stiefelQR qrQ dim rank isReal θ) = 1 :=
+  stiefelQR_orthonormal' qrQ hqr isReal θ hfull
+
+/-! ### compositions -/
+
+/-- `QuantumChannel` (`kraus`): `Σ_s K_sᴴ K_s = XᴴX`, the identity when `X` is on the Stiefel manifold -/
+theorem kraus_complete (dimIn dimOut choiRank : Nat) (X : NMat ℂ)
+    (hX : (toM (choiRank * dimOut) dimIn X)ᴴ * toM (choiRank * dimOut) dimIn X = 1) (i j : Fin dimIn) :
+    ∑ s : Fin choiRank, ∑ o : Fin dimOut, star (krausOfStiefel dimOut X s.val o.val i.val) * krausOfStiefel dimOut X s.val o.val j.val
+      = if i = j then 1 else 0 := by
+  rw [kraus_complete', hX, Matrix.one_apply]
+
+/-- `QuantumChannel` (`choi`): positive semidefinite … -/
+theorem choi_posSemidef (dimIn dimOut choiRank : Nat) (Ks : Nat → Nat → Nat → ℂ) :
+    (Matrix.of fun (a b : Fin dimOut × Fin dimIn) => choiOfKraus choiRank Ks a.1.val a.2.val b.1.val b.2.val).PosSemidef :=
+  choi_posSemidef' dimIn dimOut choiRank Ks
+/-- … and trace preserving -/
+theorem choi_trace_preserving (dimIn dimOut choiRank : Nat) (X : NMat ℂ)
+    (hX : (toM (choiRank * dimOut) dimIn X)ᴴ * toM (choiRank * dimOut) dimIn X = 1) (i i' : Fin dimIn) :
+    ∑ o : Fin dimOut, choiOfKraus choiRank (krausOfStiefel dimOut X) o.val i.val o.val i'.val = if i = i' then 1 else 0 := by
+  rw [choi_partial_trace', hX, Matrix.one_apply]; split_ifs <;> simp
+
+/-- `SeparableDensityMatrix`: the output is by construction `Σ_k p_k (a_k a_kᴴ) ⊗ (b_k b_kᴴ)` -/
+theorem separable_is_mixture (n : Nat) (p : Nat → ℂ) (a b : NMat ℂ) (i j i' j' : Nat) :
+    separableDM n p a b i j i' j'
+      = ∑ k : Fin n, p k.val * (a.get k.val i * star (a.get k.val i')) * (b.get k.val j * star (b.get k.val j')) := by
+  simp only [separableDM, sumK_eq, CxOps.conj]
+  refine Finset.sum_congr rfl (fun k _ => ?_)
+  simp only [Complex.star_def]; ring
+
+/-! ### Euler–Hurwitz angles -/
+
+/-- **`to_stiefel_euler` has orthonormal columns for every θ** — real and complex, with and without the phase column, all
+`rank ≤ dim` (induction over the column recursion: each step is a product of Givens rotations applied to `[1 0; 0 prev]`). -/
+theorem stiefelEuler_orthonormal (dim rank : Nat) (isReal withPhase : Bool) (θ : Nat → ℝ) (h : rank ≤ dim) :
+    (toM dim rank (stiefelEuler (K := ℂ) dim rank isReal withPhase θ))ᴴ * toM dim rank (stiefelEuler (K := ℂ) dim rank isReal withPhase θ) = 1 :=
+  stiefelEuler_orthonormal' dim rank isReal withPhase θ h
+
+/-! ### non-vacuity -/
+
+example : normSq 2 (fun _ => (1 : ℝ)) ≠ 0 := by norm_num [normSq, sumRange]
+example : ∃ S : Scalars ℂ, S.Valid 3 := ⟨complexScalars 3, complexScalars_valid (by norm_num)⟩
+/-- the contract of `expm` is satisfiable -/
+example (dim : Nat) : ∃ expm : NMat ℂ → NMat ℂ, ∀ A, toM dim dim (expm A) = mexp (toM dim dim A) :=
+  ⟨fun A => NMat.ofFn dim dim fun i j => if h : i < dim ∧ j < dim then mexp (toM dim dim A) ⟨i, h.1⟩ ⟨j, h.2⟩ else 0, fun A => by
+    ext i j; simp [toM, NMat.get_ofFn_fin]⟩
+/-- the contract of `inv` is satisfiable -/
+example (dim : Nat) : ∃ inv : NMat ℂ → NMat ℂ, ∀ P, IsUnit (toM dim dim P).det → toM dim dim (inv P) * toM dim dim P = 1 :=
+  ⟨fun P => NMat.ofFn dim dim fun i j => if h : i < dim ∧ j < dim then (toM dim dim P)⁻¹ ⟨i, h.1⟩ ⟨j, h.2⟩ else 0, fun P hP => by
+    have : toM dim dim (NMat.ofFn dim dim fun i j => if h : i < dim ∧ j < dim then (toM dim dim P)⁻¹ ⟨i, h.1⟩ ⟨j, h.2⟩ else 0)
+        = (toM dim dim P)⁻¹ := by
+      ext i j; simp [toM, NMat.get_ofFn_fin]
+    rw [this]; exact Matrix.nonsing_inv_mul _ hP⟩
+
 end Numqi.C01
